@@ -24,6 +24,7 @@ class Module:
 		self.__entrypoint = entrypoint
 		self.__sources = sources
 		self.__identity: str = ''
+		self.__depend_identities: list[str] = []
 
 	@override
 	def __repr__(self) -> str:
@@ -79,5 +80,15 @@ class Module:
 		depends_files = [module_path_to_filepath(import_node.import_path.tokens, f'.{self.module_path.language}') for import_node in self.entrypoint.imports]
 		depends_files.append(self.filepath)
 		identities = [self.__sources.hash(filepath) for filepath in depends_files]
+		identities.extend(self.__depend_identities)
 		self.__identity = hashlib.md5(str(identities).encode('utf-8')).hexdigest()
 		return self.__identity
+
+	def depends_on(self, identities: list[str]) -> None:
+		"""依存モジュールの識別子を登録。間接的にインポートしたモジュールの変更を自身の識別子に反映する
+
+		Args:
+			identities: 依存モジュールの識別子リスト
+		"""
+		self.__depend_identities = identities
+		self.__identity = ''
